@@ -76,6 +76,8 @@ EXPERIMENTS = [
      [("    if ((name >= SCPI_REG_COUNT) || (context == NULL)) {\n        return;\n    }\n\n    scpi_reg_group_info_t register_group;",
        "    if (!(name < SCPI_REG_COUNT && context != NULL)) {\n        return;\n    }\n\n    scpi_reg_group_info_t register_group;"),
       ("    SCPI_RegSet(context, name, SCPI_RegGet(context, name) | bits);", "    scpi_reg_val_t cur = SCPI_RegGet(context, name);\n    SCPI_RegSet(context, name, cur | bits);")]),
+    ("R9", "rewrite", "STB_SRQ masked out of the status byte only, not out of SRE as well (equivalent: `(x & ~m) & (y & ~m) = (x & ~m) & y`)",
+     [("scpi_reg_val_t sre = context->registers[SCPI_REG_SRE] & ~STB_SRQ;", "scpi_reg_val_t sre = context->registers[SCPI_REG_SRE];")]),
     ("U1", "outside-subset", "`val += register_group.parent_bit` (arithmetic on a promoted 16-bit value: refused, never guessed)",
      [("                    val |= register_group.parent_bit;\n", "                    val += register_group.parent_bit;\n", 2)]),
     # ---- semantic changes: a proof must break
@@ -92,8 +94,9 @@ EXPERIMENTS = [
      [("val = ((old_val ^ val) & val) | SCPI_RegGet(context, register_group.event);", "val = val | SCPI_RegGet(context, register_group.event);")]),
     ("B6", "break", "early `return` on `old_val == val` removed (the walk always goes to the top)",
      [(EARLY, "        context->registers[name] = val;\n")]),
-    ("B7", "break", "MSS computed without masking STB_SRQ out of SRE",
-     [("scpi_reg_val_t sre = context->registers[SCPI_REG_SRE] & ~STB_SRQ;", "scpi_reg_val_t sre = context->registers[SCPI_REG_SRE];")]),
+    ("B7", "break", "MSS computed without masking STB_SRQ out of the status byte and SRE (bit 6 enables itself)",
+     [("scpi_reg_val_t sre = context->registers[SCPI_REG_SRE] & ~STB_SRQ;", "scpi_reg_val_t sre = context->registers[SCPI_REG_SRE];"),
+      ("scpi_reg_val_t stb = context->registers[SCPI_REG_STB] & ~STB_SRQ;", "scpi_reg_val_t stb = context->registers[SCPI_REG_STB];")]),
     ("B8", "break", "SCPI_RegGet accepts name == SCPI_REG_COUNT (`<=`: reads one past the array)",
      [("    if ((name < SCPI_REG_COUNT) && context) {", "    if ((name <= SCPI_REG_COUNT) && context) {")]),
     ("B9", "break", "SCPI_RegClearBits without the complement (`& bits`)",
